@@ -16,7 +16,8 @@ func init() {
 		"(R8) release on all exits: every path from the registration to a return executes delete(resCh, id) with the same key; "+
 		"(R9) the wait is one blocking select over exactly the registered channel, a timer on the configured timeout and ctx.Done(); the retry loop is bounded by messageMaxRetries and repeats only on errTimeout; "+
 		"(R10) correlation: the response carries the request's ID (respond(…, req.ID, …) → responseMsg.ID), the lookup key on arrival is the decoded response's ID, and register/delete use the request's ID; both IDs are codec field 1; "+
-		"(R11) the channel registered for a request is created by make() in that call (a reused channel could still hold a reply to an earlier request).",
+		"(R11) the channel registered for a request is created by make() in that call (a reused channel could still hold a reply to an earlier request); "+
+		"(R12) request IDs come from a uniqueness source, never from message content or the clock.",
 		runC17)
 }
 
@@ -136,6 +137,24 @@ func runC17(c *Ctx) {
 	c.Require("C17.R8 release-on-all-exits", FuncKey(send)+": resCh[id]=ch ⇒ delete(resCh,id)", p.InstrPos(reg),
 		"every path from the registration to a return deletes the entry (same key), directly or through a closure/method that always does", path == nil, pathStr(path)+retOfPath(p, path))
 	c.MinInstances("C17.R8 delete sites", nRel, 1)
+	// ---- R12 pending entries are keyed by the request ID alone, so IDs of requests that are
+	// pending together must differ: the ID comes from a uniqueness source (uuid, crypto/rand,
+	// an atomic counter), not from the message content or the clock
+	if nr := c.Anchor("pkg/p2p.newRequestMessage"); nr != nil {
+		okU, val := false, ""
+		for _, st := range storesToField(nr, "p2p.Request", "ID") {
+			t := factsOf(nr).Term(st.Val)
+			val = t.String()
+			okU = t.Any(func(x *Term) bool {
+				if x.Op != "call" {
+					return false
+				}
+				return strings.Contains(x.Sym, "google/uuid.New") || strings.HasPrefix(x.Sym, "crypto/rand.") || strings.HasPrefix(x.Sym, "sync/atomic.Add") || strings.Contains(x.Sym, "atomic.Uint64).Add") || strings.Contains(x.Sym, "atomic.Int64).Add")
+			})
+		}
+		c.Require("C17.R12 request-id-unique", FuncKey(nr)+": Request.ID", p.Pos(nr.Pos()), "the request ID is drawn from a uniqueness source (uuid / crypto/rand / atomic counter)", okU, "ID = "+val)
+	}
+
 	// ---- R11 the registered channel is made for this request: nothing delivered for an
 	// earlier request can be buffered in it
 	{
